@@ -119,10 +119,111 @@ func c14Deliveries(nd *cluster.Node, from int) ([]c14Delivery, int) {
 	return out, len(evs)
 }
 
+// c14AfterCompaction: the node is stopped right after its snapshot was compacted (a real node
+// compacts once the file passes 128 KiB: several thousand events), the compaction having been
+// set off by the newest event or query itself. The restarted node must not deliver that newest
+// message, nor any older one, again.
+func c14AfterCompaction(t *testing.T, rng *rand.Rand, base string, ci int) (viol string, stats map[string]int, setupErr string) {
+	stats = map[string]int{}
+	dir, err := os.MkdirTemp(base, "ac")
+	if err != nil {
+		return "", stats, err.Error()
+	}
+	defer os.RemoveAll(dir)
+	snap := filepath.Join(dir, "snap")
+	queries := rng.Intn(2) == 0
+	synctest.Test(t, c10Settled(func() {
+		nw := simnet.New(int64(ci))
+		nd, err := cluster.Start(nw, cluster.Opts{Name: "ac", IP: "10.14.9.1", Profile: "passive", Snap: snap, EventBuf: 1 << 16})
+		if err != nil {
+			setupErr = err.Error()
+			return
+		}
+		closed := false
+		defer func() {
+			if !closed {
+				nd.Close()
+			}
+		}()
+		mk := func(lt uint64) []byte {
+			if queries {
+				return wire.Encode(wire.Query, &wire.MsgQuery{LTime: lt, ID: uint32(lt), Addr: []byte{10, 14, 9, 2}, Port: 7946, SourceNode: "src", Timeout: time.Second, Name: "q"})
+			}
+			return wire.Encode(wire.UserEvent, &wire.MsgUserEvent{LTime: lt, Name: "e", Payload: []byte("p")})
+		}
+		ino0, _ := c10Inode(snap)
+		var last uint64
+		start := uint64(1 + rng.Intn(1000))
+		for lt := start; lt < start+20000; lt++ {
+			nd.NotifyMsg(mk(lt))
+			synctest.Wait()
+			last = lt
+			if ino, _ := c10Inode(snap); ino != ino0 && ino0 != 0 {
+				stats["compaction_set_off_by_newest_message"]++
+				break
+			}
+			if lt%64 == 0 {
+				time.Sleep(600 * time.Millisecond) // let the periodic flush run
+			}
+		}
+		if stats["compaction_set_off_by_newest_message"] == 0 {
+			setupErr = "no compaction within 20000 messages"
+			return
+		}
+		stats["messages_before_compaction"] = int(last - start + 1)
+		nd.Close() // stop at once
+		closed = true
+		nd2, err := cluster.Start(nw, cluster.Opts{Name: "ac", IP: "10.14.9.1", Profile: "passive", Snap: snap, EventBuf: 1 << 16})
+		if err != nil {
+			setupErr = "restart: " + err.Error()
+			return
+		}
+		defer nd2.Close()
+		before := nd2.EventCount()
+		for _, lt := range []uint64{last, last - 1, last - 2, start} {
+			nd2.NotifyMsg(mk(lt))
+		}
+		synctest.Wait()
+		for _, le := range nd2.Events()[before:] {
+			var got uint64
+			switch e := le.E.(type) {
+			case serf.UserEvent:
+				got = uint64(e.LTime)
+			case *serf.Query:
+				got = uint64(e.LTime)
+			default:
+				continue
+			}
+			if got <= last {
+				viol = fmt.Sprintf("node stopped right after the snapshot compaction that message %d (queries=%v) had set off, %d messages after the first; restarted from the snapshot it delivered message %d again", last, queries, last-start+1, got)
+			}
+		}
+		// a newer one is still delivered
+		nd2.NotifyMsg(mk(last + 1))
+		synctest.Wait()
+		stats["restarts_after_compaction"]++
+	}))
+	return
+}
+
 func TestC14(t *testing.T) {
 	r := evid.Start(t, "C14", "exploration")
 	base := t.TempDir()
 	n := r.N(500, 10000)
+	r.Cases("after-compaction", r.N(6, 100), 0, func(ci int, rng *rand.Rand) {
+		viol, stats, setupErr := c14AfterCompaction(t, rng, base, ci)
+		r.Eval(1)
+		for k, v := range stats {
+			r.Count(k, v)
+		}
+		if setupErr != "" {
+			r.Inconclusive("after-compaction case: " + setupErr)
+			return
+		}
+		if viol != "" {
+			r.Violation("redelivered-after-compaction", ci, viol, viol)
+		}
+	})
 	r.Cases("restart", n, 0, func(ci int, rng *rand.Rand) {
 		dir, err := os.MkdirTemp(base, "c")
 		if err != nil {
